@@ -38,7 +38,15 @@ META = {
             'arbitrary lists with repetitions / overlap / gaps / empty, f_iterations and c_iterations 0-2, exact / arbitrary / default Dinv), the '
             'raw block_jacobi_indexed kernel on arbitrary index lists, and the public block_jacobi / block_gauss_seidel / gauss_seidel_nr on CSR '
             'input against the models that INCLUDE the storage conversion (Model/ExtC09XIndexed.lean: blockJacobiIndexed, pyCFBlockJacobi, '
-            'pubBlockJacobi, pubBlockGaussSeidel, pubCFBlockJacobi, pubGaussSeidelNR)',
+            'pubBlockJacobi, pubBlockGaussSeidel, pubCFBlockJacobi, pubGaussSeidelNR). Part G: multiplicative Schwarz over user decompositions '
+            'with FEWER (incl. none), AS MANY and MORE (up to 2n+2) subdomains than unknowns, empty and full subdomains, x forward / backward / '
+            'symmetric x iterations 1-3 x internally computed / given inverse / given arbitrary sub-blocks x real / complex, called through '
+            'relaxation.schwarz, through smoothing.setup_schwarz (user decomposition) and smoothing.setup_strength_based_schwarz (decomposition = '
+            'pattern of lvl.C) on a hierarchy level, and the raw kernel on forward / backward / strided subdomain ranges; every case is judged by '
+            'the dense formula in the documented subdomain order AND compared with the Lean model. ISOLATION: every call into the real code '
+            '(parts A-G, replays) runs in a forked worker process; a call during which the worker dies (signal, abort after a C++ exception) or '
+            'that does not return within 60 s is re-run alone in a fresh worker and reported as a violation on that concrete case (the routine '
+            'did not compute its defining update); an exception raised by a public call or a kernel shim on a valid input likewise',
     'search_only': ['single-precision complex (complex64) jacobi / gauss_seidel, CSR and BSR: dense formula, tolerance 2e-4',
                     'default inverse blocks (Dinv=None, inv_subblock=None: pyamg inverts with its SVD kernel / LAPACK gelss): the '
                     'model is fed the exact rational inverses computed by the harness and compared within 1e-9, not bit-exactly',
@@ -85,6 +93,141 @@ def _eq_exact(model_vals, impl):
 
 def _hdr(A, cplx):
     return f'{A.shape[0]} {enc_ints(A.indptr)} {enc_ints(A.indices)} {(enc_crats if cplx else enc_rats)(A.data)}'
+
+
+# ------------------------------------------------------------------------------------------------
+# isolation: every call into the real code (raw kernels, public drivers) runs in a forked worker.  The parent generates
+# the cases (all random choices) and keeps, per case, a thunk `run(prog)` that performs the real call(s) and returns what
+# was observed; the worker inherits the thunks through fork(), executes them one after the other and streams the results
+# back.  A case during which the worker dies (signal: segfault, abort after a C++ exception) or does not answer is
+# re-run alone in a fresh worker and reported as a VIOLATION on that concrete case -- the routine did not compute its
+# defining update -- and a new worker continues with the next case.
+# ------------------------------------------------------------------------------------------------
+
+_ISO_STATS = {'workers': 0, 'calls': 0, 'crashed': 0, 'slow_retry': 0}
+_ISO_LIMIT_S = 60.0        # no answer from the worker within this time = the call does not return (tiny systems: ms)
+
+
+def _rng_state(rng):
+    """JSON-able snapshot of the generator (taken before a case is generated: the case can be regenerated from it)"""
+    import json
+    return json.dumps(rng.bit_generator.state)
+
+
+def _rng_from(state):
+    import json
+    g = np.random.default_rng(0)
+    g.bit_generator.state = json.loads(state)
+    return g
+
+
+def _iso_worker(thunks, first, last, conn):
+    import os
+    code = 0
+    try:
+        for k in range(first, last):
+            try:
+                val = ('ok', thunks[k](lambda payload, _k=k: conn.send(('prog', _k, payload))))
+            except Exception as ex:      # noqa: BLE001  (an exception of the real code is an observation, not a crash)
+                val = ('raised', f'{type(ex).__name__}: {ex}')
+            conn.send(('done', k, val))
+        conn.close()
+    except BaseException:                # noqa: BLE001
+        code = 3
+    finally:
+        os._exit(code)
+
+
+def _iso_run(thunks, first, last, res, limit):
+    """one worker for thunks[first:last]; fills res[k]; returns (index the worker stopped at | None, how, payloads)"""
+    import multiprocessing as mp
+    mpc = mp.get_context('fork')
+    pr, pw = mpc.Pipe(duplex=False)
+    proc = mpc.Process(target=_iso_worker, args=(thunks, first, last, pw), daemon=True)
+    proc.start()
+    pw.close()
+    k, prog, how = first, [], None
+    while k < last:
+        if not pr.poll(limit):
+            proc.kill()
+            how = f'did not return within {limit:.0f} s'
+            break
+        try:
+            rec = pr.recv()
+        except (EOFError, OSError):
+            break
+        if rec[0] == 'prog':
+            prog.append(rec[2])
+        else:
+            res[rec[1]] = rec[2]
+            k, prog = rec[1] + 1, []
+    proc.join(30)
+    pr.close()
+    if k >= last:
+        return None, None, []
+    if how is None:
+        ec = proc.exitcode
+        if ec is not None and ec < 0:
+            import signal
+            try:
+                how = f'the interpreter died with signal {-ec} ({signal.Signals(-ec).name})'
+            except ValueError:
+                how = f'the interpreter died with signal {-ec}'
+        else:
+            how = f'the worker process ended with exit status {ec}'
+    return k, how, prog
+
+
+def _isolated(thunks):
+    """results of thunks[k](prog), each computed in a forked worker: ('ok', value) | ('raised', 'Exc: text') |
+    ('crashed', how, payloads sent through prog before the end)"""
+    import os
+    if os.environ.get('VERIF_C09_INPROC'):       # debugging aid: no isolation
+        out = []
+        for th in thunks:
+            try:
+                out.append(('ok', th(lambda payload: None)))
+            except Exception as ex:      # noqa: BLE001
+                out.append(('raised', f'{type(ex).__name__}: {ex}'))
+        return out
+    res = [None] * len(thunks)
+    first, slow = 0, 0
+    _ISO_STATS['calls'] += len(thunks)
+    while first < len(thunks):
+        limit = _ISO_LIMIT_S if slow == 0 else 20.0
+        _ISO_STATS['workers'] += 1
+        k, how, prog = _iso_run(thunks, first, len(thunks), res, limit)
+        if k is None:
+            break
+        if k > first:
+            # not the first call of this worker: again, alone, in a fresh process (what is reported must reproduce by itself)
+            k1, how1, prog1 = _iso_run(thunks, k, k + 1, res, min(limit, 30.0))
+            if k1 is None:
+                how = None if how.startswith('did not') else \
+                    how + ' -- only after the preceding calls of the same worker process; alone the call returns'
+                if how is None:      # slow machine, not a hang
+                    _ISO_STATS['slow_retry'] += 1
+                    print(f'NOTE: an isolated call answered only when re-run alone (no answer within {limit:.0f} s in the batch worker)')
+                    first = k + 1
+                    continue
+            else:
+                how, prog = how1, prog1
+        if 'did not return' in how:
+            slow += 1
+        res[k] = ('crashed', how, prog)
+        _ISO_STATS['crashed'] += 1
+        first = k + 1
+    return res
+
+
+def _iso1(fn):
+    """one call in a forked worker"""
+    return _isolated([lambda prog: fn()])[0]
+
+
+def _failed_text(r):
+    """how a real call ended that did not return a result"""
+    return 'raised ' + r[1] if r[0] == 'raised' else f'{r[1]} (crash / hang inside the routine on this input)'
 
 
 # ------------------------------------------------------------------------------------------------
@@ -140,45 +283,40 @@ def raw_case(rng, kind, cplx, t):
     Ap, Aj, Ax = A.indptr, A.indices, A.data
     xx = x.astype(dt).copy()
     bb = b.astype(dt)
+    outf = lambda: xx       # (the kernel calls are deferred: `run` executes them in the isolated worker)
     if kind == 'gs':
-        amg_core.gauss_seidel(Ap, Aj, Ax, xx, bb, s0, s1, s2)
+        call = lambda: amg_core.gauss_seidel(Ap, Aj, Ax, xx, bb, s0, s1, s2)
         line = f'{pre}gs {hdr} {ev(b)} {ev(x)} {s0} {s1} {s2}'
-        out = xx
     elif kind == 'sor':
-        amg_core.sor_gauss_seidel(Ap, Aj, Ax, xx, bb, s0, s1, s2, om)
+        call = lambda: amg_core.sor_gauss_seidel(Ap, Aj, Ax, xx, bb, s0, s1, s2, om)
         line = f'{pre}sor {enc_rat(om)} {hdr} {ev(b)} {ev(x)} {s0} {s1} {s2}'
-        out = xx
     elif kind == 'jac':
         temp = np.zeros(n, dtype=dt)
-        amg_core.jacobi(Ap, Aj, Ax, xx, bb, temp, s0, s1, s2, np.array([om], dtype=dt))
+        call = lambda: amg_core.jacobi(Ap, Aj, Ax, xx, bb, temp, s0, s1, s2, np.array([om], dtype=dt))
         line = (f'c09_c_jac {enc_crat(om)} {hdr} {ev(b)} {ev(x)} {s0} {s1} {s2}' if cplx else
                 f'jac {enc_rat(om)} {hdr} {ev(b)} {ev(x)} {s0} {s1} {s2}')
-        out = xx
     elif kind == 'jaci':
         idx = rng.integers(0, n, size=rng.integers(0, n + 2)).astype(np.int32)
         case['idx'] = idx.tolist()
-        amg_core.jacobi_indexed(Ap, Aj, Ax, xx, bb, idx, np.array([om], dtype=dt))
+        call = lambda: amg_core.jacobi_indexed(Ap, Aj, Ax, xx, bb, idx, np.array([om], dtype=dt))
         line = (f'c09_c_jaci {enc_crat(om)} {hdr} {ev(b)} {ev(x)} {enc_ints(idx)}' if cplx else
                 f'jaci {enc_rat(om)} {hdr} {ev(b)} {ev(x)} {enc_ints(idx)}')
-        out = xx
     elif kind == 'gsi':
         idx = rng.integers(0, n, size=rng.integers(1, n + 2)).astype(np.int32)
         m = len(idx)
         a0, a1, a2 = (0, m, 1) if t % 2 else (m - 1, -1, -1)
         case['idx'] = idx.tolist()
         case['sweep'] = [a0, a1, a2]
-        amg_core.gauss_seidel_indexed(Ap, Aj, Ax, xx, bb, idx, a0, a1, a2)
+        call = lambda: amg_core.gauss_seidel_indexed(Ap, Aj, Ax, xx, bb, idx, a0, a1, a2)
         line = f'{"c09_c_gsi" if cplx else "gsi"} {hdr} {ev(b)} {ev(x)} {enc_ints(idx)} {a0} {a1} {a2}'
-        out = xx
     elif kind == 'gsne':
         dinv = rng.choice([1, 0.5, 0.25, 2], size=n).astype(dt)
         if cplx and rng.random() < 0.5:     # the kernel takes Dinv in the matrix type: purely imaginary / mixed entries
             dinv = dinv * rng.choice([1, 1j, -1j, 1 + 1j], size=n)
         case['dinv'] = dinv.tolist()
         omv = om
-        amg_core.gauss_seidel_ne(Ap, Aj, Ax, xx, bb, s0, s1, s2, dinv, omv)
+        call = lambda: amg_core.gauss_seidel_ne(Ap, Aj, Ax, xx, bb, s0, s1, s2, dinv, omv)
         line = f'{pre}gsne {(enc_crat if cplx else enc_rat)(om)} {hdr} {ev(b)} {ev(x)} {ev(dinv)} {s0} {s1} {s2}'
-        out = xx
     elif kind == 'gsnr':
         dinv = rng.choice([1, 0.5, 0.25, 2], size=n).astype(dt)
         if cplx and rng.random() < 0.5:     # the kernel takes Dinv in the matrix type: purely imaginary / mixed entries
@@ -186,21 +324,20 @@ def raw_case(rng, kind, cplx, t):
         case['dinv'] = dinv.tolist()
         r = bb.copy()
         omv = om
-        amg_core.gauss_seidel_nr(Ap, Aj, Ax, xx, r, s0, s1, s2, dinv, omv)
+        call = lambda: amg_core.gauss_seidel_nr(Ap, Aj, Ax, xx, r, s0, s1, s2, dinv, omv)
         line = f'{pre}gsnr {(enc_crat if cplx else enc_rat)(om)} {hdr} {ev(b)} {ev(x)} {ev(dinv)} {s0} {s1} {s2}'
-        out = np.concatenate([xx, r])
+        outf = lambda: np.concatenate([xx, r])
     else:
         delta = gen.rand_vec(rng, n, cplx, -3, 4).astype(dt)
         case['delta'] = delta.tolist()
         temp = np.zeros(n, dtype=dt)
         s0, s1, s2 = 0, n, 1
         case['sweep'] = [s0, s1, s2]
-        amg_core.jacobi_ne(Ap, Aj, Ax, xx, bb, delta, temp, s0, s1, s2, np.array([om], dtype=dt))
+        call = lambda: amg_core.jacobi_ne(Ap, Aj, Ax, xx, bb, delta, temp, s0, s1, s2, np.array([om], dtype=dt))
         line = f'{pre}jacne {(enc_crat if cplx else enc_rat)(om)} {hdr} {ev(delta)} {ev(x)} {s0} {s1} {s2}'
-        out = xx
     nontrivial = n >= 2 and any(A.indices[k] != i for i in range(n) for k in range(A.indptr[i], A.indptr[i + 1]))
-    return {'line': line, 'out': out, 'case': case, 'feats': feats | {swk, 'complex' if cplx else 'real', 'omega!=1' if om != 1 else 'omega=1'},
-            'nontrivial': nontrivial, 'cplx': cplx}
+    return {'line': line, 'run': lambda prog: (call(), outf())[1], 'case': case,
+            'feats': feats | {swk, 'complex' if cplx else 'real', 'omega!=1' if om != 1 else 'omega=1'}, 'nontrivial': nontrivial, 'cplx': cplx}
 
 
 BSR_KERNELS = ['bgs', 'bjac', 'bjaci']
@@ -255,28 +392,41 @@ def raw_bsr_case(rng, kind, cplx, t):
     xx = x.copy()
     if kind == 'bgs':
         rows = _block_rows(range(s0, s1, s2), bs, s2 < 0)
-        amg_core.bsr_gauss_seidel(Bp, Bj, Bx, xx, b, s0, s1, s2, bs)
+        call = lambda: amg_core.bsr_gauss_seidel(Bp, Bj, Bx, xx, b, s0, s1, s2, bs)
         line = f'{P}gsrows {hdr} {ev(b)} {ev(x)} {enc_ints(rows)}'
     elif kind == 'bjac':
         rows = _block_rows(range(s0, s1, s2), bs, s2 < 0)
         temp = gen.rand_vec(rng, n, cplx).astype(dt)
-        amg_core.bsr_jacobi(Bp, Bj, Bx, xx, b, temp, s0, s1, s2, bs, np.array([om], dtype=dt))
+        call = lambda: amg_core.bsr_jacobi(Bp, Bj, Bx, xx, b, temp, s0, s1, s2, bs, np.array([om], dtype=dt))
         line = f'{P}jacrows {eo(om)} {hdr} {ev(b)} {ev(x)} {enc_ints(rows)}'
     else:
         idx = rng.integers(0, nb, size=rng.integers(0, nb + 2)).astype(np.int32)
         case['idx'] = idx.tolist()
         rows = _block_rows(idx, bs, False)
-        amg_core.bsr_jacobi_indexed(Bp, Bj, Bx, xx, b, idx, bs, np.array([om], dtype=dt))
+        call = lambda: amg_core.bsr_jacobi_indexed(Bp, Bj, Bx, xx, b, idx, bs, np.array([om], dtype=dt))
         line = f'{P}jacrows {eo(om)} {hdr} {ev(b)} {ev(x)} {enc_ints(rows)}'
     case['rows'] = rows
     nontrivial = n >= 2 and A.nnz > np.count_nonzero(M.diagonal())
-    return {'line': line, 'out': xx, 'case': case, 'feats': feats | {swk, 'complex' if cplx else 'real', f'bs:{bs}', 'omega!=1' if om != 1 else 'omega=1'},
-            'nontrivial': nontrivial, 'cplx': cplx}
+    return {'line': line, 'run': lambda prog: (call(), xx)[1], 'case': case,
+            'feats': feats | {swk, 'complex' if cplx else 'real', f'bs:{bs}', 'omega!=1' if om != 1 else 'omega=1'}, 'nontrivial': nontrivial, 'cplx': cplx}
 
 
 def _parse_model(s, cplx):
     f = dec_crat if cplx else dec_rat
     return [v for part in s.split(';') for v in dec_list(part, f)]
+
+
+def _raw_results(ctx, items):
+    """execute the deferred kernel calls of the items in the isolated worker: it['out'] = what the kernel left in x
+    (None, and a violation, if the call did not come back)"""
+    for it, r in zip(items, _isolated([it['run'] for it in items])):
+        it['out'] = r[1] if r[0] == 'ok' else None
+        if r[0] != 'ok':
+            c = it['case']
+            ctx.case(key=hashlib.sha1(it['line'].encode()).hexdigest(), nontrivial=it['nontrivial'])
+            ctx.feat('kernel:' + c['kernel'])
+            ctx.violation(f'kernel {c["kernel"]} (n={c["n"]}, sweep {c.get("sweep")}) did not compute its defining update: {_failed_text(r)}',
+                          {'kind': 'raw', **c, 'regen': it['regen']})
 
 
 def part_a(ctx, N):
@@ -286,7 +436,11 @@ def part_a(ctx, N):
     for t in range(N):
         kind = kernels[t % len(kernels)]
         cplx = (t // len(kernels)) % 3 == 2
+        st = _rng_state(rng)
         items.append((raw_bsr_case if kind in BSR_KERNELS else raw_case)(rng, kind, cplx, t))
+        items[-1]['regen'] = {'part': 'a', 'kind': kind, 'cplx': cplx, 't': t, 'state': st}
+    _raw_results(ctx, items)
+    items = [it for it in items if it['out'] is not None]
     outs = ctx.lean([it['line'] for it in items])
     for it, o in zip(items, outs):
         ctx.case(key=hashlib.sha1(it['line'].encode()).hexdigest(), nontrivial=it['nontrivial'],
@@ -385,82 +539,110 @@ def judge_raw(ctx, it):
 # part B: public drivers vs the Lean driver models (exact)
 # ------------------------------------------------------------------------------------------------
 
-def part_b(ctx, N):
+PUBLIC_FNS = ['gauss_seidel', 'sor', 'jacobi', 'gauss_seidel_indexed', 'jacobi_indexed', 'cf_jacobi', 'fc_jacobi']
+
+
+def public_case(rng, t):
+    """one call of a public point driver: the case, its Lean request and the deferred call"""
     from pyamg.relaxation import relaxation as R
+    FNS = PUBLIC_FNS
+    n = int(rng.integers(1, 8))
+    cplx = (t // len(FNS)) % 3 == 2
+    A, feats = gen.rand_dyadic_csr(rng, n, complex_=cplx, unsorted=(t % 4 == 0))
+    if cplx:
+        _cdiag(rng, A, feats)
+    dt = complex if cplx else float
+    b = gen.rand_vec(rng, n, cplx).astype(dt)
+    x = gen.rand_vec(rng, n, cplx).astype(dt)
+    om = float(rng.choice([1.0, 0.5, 1.5]))
+    iters = int(rng.integers(1, 4))
+    sweep = str(rng.choice(['forward', 'backward', 'symmetric']))
+    ev = enc_crats if cplx else enc_rats
+    eo = enc_crat if cplx else enc_rat
+    hdr = _hdr(A, cplx)
+    kind = FNS[t % len(FNS)]
+    if cplx and kind in ('jacobi', 'jacobi_indexed', 'cf_jacobi', 'fc_jacobi') and rng.random() < 0.4:
+        om = _cscalar(rng, om)
+        feats.add('omega:complex')
+    # storage: the same matrix as BSR with a block size dividing n (the indexed routines then take BLOCK indices)
+    bs = 0
+    if kind != 'gauss_seidel_indexed' and rng.random() < 0.35:
+        bs = int(rng.choice([d for d in (1, 2, 3) if n % d == 0]))
+    nb = n // bs if bs else n
+    case = {'fn': kind, 'complex': cplx, 'n': n, 'indptr': A.indptr.tolist(), 'indices': A.indices.tolist(),
+            'data': A.data.tolist(), 'b': b.tolist(), 'x': x.tolist(), 'omega': om, 'iterations': iters, 'sweep': sweep, 'bsr_blocksize': bs}
+    Ain = A
+    if bs:
+        Ain = A.tobsr(blocksize=(bs, bs))
+        feats.add(f'storage:bsr{bs}')
+    expand = (lambda ix: _block_rows(ix, bs, False)) if bs else (lambda ix: [int(v) for v in ix])
+    xx = x.copy()
+    hA, hb, hAin = _h(A.data), _h(b), _h(Ain.data)
+    pre = 'c' if cplx else ''
+    if kind == 'gauss_seidel':
+        call = lambda: R.gauss_seidel(Ain, xx, b, iterations=iters, sweep=sweep, omega=om)
+        line = f'{pre}pygs {enc_rat(om)} {hdr} {ev(b)} {ev(x)} {iters} {sweep}'
+    elif kind == 'sor':
+        call = lambda: R.sor(Ain, xx, b, om, iterations=iters, sweep=sweep)
+        line = f'{pre}pygs {enc_rat(om)} {hdr} {ev(b)} {ev(x)} {iters} {sweep}'
+    elif kind == 'jacobi':
+        call = lambda: R.jacobi(Ain, xx, b, iterations=iters, omega=om)
+        line = f'{pre}pyjac {eo(om)} {hdr} {ev(b)} {ev(x)} {iters}'
+    elif kind == 'gauss_seidel_indexed':
+        idx = rng.integers(0, n, size=rng.integers(0, n + 2)).astype(np.int32)
+        case['idx'] = idx.tolist()
+        call = lambda: R.gauss_seidel_indexed(A, xx, b, idx, iterations=iters, sweep=sweep)
+        line = f'{"c09_c_pygsi" if cplx else "pygsi"} {hdr} {ev(b)} {ev(x)} {enc_ints(idx)} {iters} {sweep}'
+    elif kind == 'jacobi_indexed':
+        # (BSR storage: a non-empty index set; the unchanged code raises on an empty one -- reported, not generated)
+        idx = rng.integers(0, nb, size=rng.integers(1 if bs else 0, nb + 2)).astype(np.int32)
+        case['block_idx'], case['idx'] = idx.tolist(), expand(idx)
+        call = lambda: R.jacobi_indexed(Ain, xx, b, idx, iterations=iters, omega=om)
+        line = f'{"c09_c_pyjaci" if cplx else "pyjaci"} {eo(om)} {hdr} {ev(b)} {ev(x)} {enc_ints(case["idx"])} {iters}'
+    else:
+        perm = rng.permutation(nb)
+        k = int(rng.integers(0, nb + 1))
+        C, F = np.sort(perm[:k]).astype(np.int32), np.sort(perm[k:]).astype(np.int32)
+        fit, cit = int(rng.integers(1, 3)), int(rng.integers(1, 3))
+        case.update({'block_Cpts': C.tolist(), 'block_Fpts': F.tolist(), 'Cpts': expand(C), 'Fpts': expand(F),
+                     'f_iterations': fit, 'c_iterations': cit})
+        fn = R.cf_jacobi if kind == 'cf_jacobi' else R.fc_jacobi
+        call = lambda: fn(Ain, xx, b, C, F, iterations=iters, f_iterations=fit, c_iterations=cit, omega=om)
+        line = (f'{"c09_c_pycfjac" if cplx else "pycfjac"} {1 if kind == "cf_jacobi" else 0} {eo(om)} {hdr} {ev(b)} {ev(x)} '
+                f'{enc_ints(case["Cpts"])} {enc_ints(case["Fpts"])} {iters} {fit} {cit}')
+    nontriv = n >= 2 and A.nnz > n
+    # (deferred: `run` makes the call in the isolated worker and reports x and whether A or b changed)
+    run = lambda prog: (call(), (xx, _h(A.data) != hA or _h(b) != hb or _h(Ain.data) != hAin))[1]
+    return {'line': line, 'run': run, 'case': case, 'cplx': cplx, 'nontrivial': nontriv,
+            'feats': feats | {'fn:' + kind, 'sweep:' + sweep, f'iters:{iters}', 'omega!=1' if om != 1 else 'omega=1',
+                              'complex' if cplx else 'real'}}
+
+
+def _public_results(ctx, items):
+    """execute the deferred public calls in the isolated worker: it['out'] = x after the call (None, and a violation, if
+    the call raised or did not come back)"""
+    for it, r in zip(items, _isolated([it['run'] for it in items])):
+        it['out'] = r[1][0] if r[0] == 'ok' else None
+        case = {'kind': 'public', **it['case'], 'regen': it['regen']}
+        if r[0] != 'ok':
+            c = it['case']
+            ctx.case(key=hashlib.sha1((it['line'] + f' storage={c["bsr_blocksize"]}').encode()).hexdigest(), nontrivial=it['nontrivial'])
+            ctx.feat('fn:' + c['fn'])
+            ctx.violation(f'{c["fn"]}(sweep={c.get("sweep")}, iterations={c.get("iterations")}, omega={c.get("omega")}, BSR blocksize '
+                          f'{c["bsr_blocksize"]}) did not compute its splitting update: {_failed_text(r)}', case)
+        elif r[1][1]:
+            ctx.violation(f'{it["case"]["fn"]} modified its matrix or right-hand side', case)
+
+
+def part_b(ctx, N):
     rng = ctx.np_rng
     items = []
-    FNS = ['gauss_seidel', 'sor', 'jacobi', 'gauss_seidel_indexed', 'jacobi_indexed', 'cf_jacobi', 'fc_jacobi']
     for t in range(N):
-        n = int(rng.integers(1, 8))
-        cplx = (t // len(FNS)) % 3 == 2
-        A, feats = gen.rand_dyadic_csr(rng, n, complex_=cplx, unsorted=(t % 4 == 0))
-        if cplx:
-            _cdiag(rng, A, feats)
-        dt = complex if cplx else float
-        b = gen.rand_vec(rng, n, cplx).astype(dt)
-        x = gen.rand_vec(rng, n, cplx).astype(dt)
-        om = float(rng.choice([1.0, 0.5, 1.5]))
-        iters = int(rng.integers(1, 4))
-        sweep = str(rng.choice(['forward', 'backward', 'symmetric']))
-        ev = enc_crats if cplx else enc_rats
-        eo = enc_crat if cplx else enc_rat
-        hdr = _hdr(A, cplx)
-        kind = FNS[t % len(FNS)]
-        if cplx and kind in ('jacobi', 'jacobi_indexed', 'cf_jacobi', 'fc_jacobi') and rng.random() < 0.4:
-            om = _cscalar(rng, om)
-            feats.add('omega:complex')
-        # storage: the same matrix as BSR with a block size dividing n (the indexed routines then take BLOCK indices)
-        bs = 0
-        if kind != 'gauss_seidel_indexed' and rng.random() < 0.35:
-            bs = int(rng.choice([d for d in (1, 2, 3) if n % d == 0]))
-        nb = n // bs if bs else n
-        case = {'fn': kind, 'complex': cplx, 'n': n, 'indptr': A.indptr.tolist(), 'indices': A.indices.tolist(),
-                'data': A.data.tolist(), 'b': b.tolist(), 'x': x.tolist(), 'omega': om, 'iterations': iters, 'sweep': sweep, 'bsr_blocksize': bs}
-        Ain = A
-        if bs:
-            Ain = A.tobsr(blocksize=(bs, bs))
-            feats.add(f'storage:bsr{bs}')
-        expand = (lambda ix: _block_rows(ix, bs, False)) if bs else (lambda ix: [int(v) for v in ix])
-        xx = x.copy()
-        hA, hb, hAin = _h(A.data), _h(b), _h(Ain.data)
-        pre = 'c' if cplx else ''
-        if kind == 'gauss_seidel':
-            R.gauss_seidel(Ain, xx, b, iterations=iters, sweep=sweep, omega=om)
-            line = f'{pre}pygs {enc_rat(om)} {hdr} {ev(b)} {ev(x)} {iters} {sweep}'
-        elif kind == 'sor':
-            R.sor(Ain, xx, b, om, iterations=iters, sweep=sweep)
-            line = f'{pre}pygs {enc_rat(om)} {hdr} {ev(b)} {ev(x)} {iters} {sweep}'
-        elif kind == 'jacobi':
-            R.jacobi(Ain, xx, b, iterations=iters, omega=om)
-            line = f'{pre}pyjac {eo(om)} {hdr} {ev(b)} {ev(x)} {iters}'
-        elif kind == 'gauss_seidel_indexed':
-            idx = rng.integers(0, n, size=rng.integers(0, n + 2)).astype(np.int32)
-            case['idx'] = idx.tolist()
-            R.gauss_seidel_indexed(A, xx, b, idx, iterations=iters, sweep=sweep)
-            line = f'{"c09_c_pygsi" if cplx else "pygsi"} {hdr} {ev(b)} {ev(x)} {enc_ints(idx)} {iters} {sweep}'
-        elif kind == 'jacobi_indexed':
-            # (BSR storage: a non-empty index set; the unchanged code raises on an empty one -- reported, not generated)
-            idx = rng.integers(0, nb, size=rng.integers(1 if bs else 0, nb + 2)).astype(np.int32)
-            case['block_idx'], case['idx'] = idx.tolist(), expand(idx)
-            R.jacobi_indexed(Ain, xx, b, idx, iterations=iters, omega=om)
-            line = f'{"c09_c_pyjaci" if cplx else "pyjaci"} {eo(om)} {hdr} {ev(b)} {ev(x)} {enc_ints(case["idx"])} {iters}'
-        else:
-            perm = rng.permutation(nb)
-            k = int(rng.integers(0, nb + 1))
-            C, F = np.sort(perm[:k]).astype(np.int32), np.sort(perm[k:]).astype(np.int32)
-            fit, cit = int(rng.integers(1, 3)), int(rng.integers(1, 3))
-            case.update({'block_Cpts': C.tolist(), 'block_Fpts': F.tolist(), 'Cpts': expand(C), 'Fpts': expand(F),
-                         'f_iterations': fit, 'c_iterations': cit})
-            fn = R.cf_jacobi if kind == 'cf_jacobi' else R.fc_jacobi
-            fn(Ain, xx, b, C, F, iterations=iters, f_iterations=fit, c_iterations=cit, omega=om)
-            line = (f'{"c09_c_pycfjac" if cplx else "pycfjac"} {1 if kind == "cf_jacobi" else 0} {eo(om)} {hdr} {ev(b)} {ev(x)} '
-                    f'{enc_ints(case["Cpts"])} {enc_ints(case["Fpts"])} {iters} {fit} {cit}')
-        if _h(A.data) != hA or _h(b) != hb or _h(Ain.data) != hAin:
-            ctx.violation(f'{kind} modified its matrix or right-hand side', {'kind': 'public', **case})
-        nontriv = n >= 2 and A.nnz > n
-        items.append({'line': line, 'out': xx, 'case': case, 'cplx': cplx, 'nontrivial': nontriv,
-                      'feats': feats | {'fn:' + kind, 'sweep:' + sweep, f'iters:{iters}', 'omega!=1' if om != 1 else 'omega=1',
-                                        'complex' if cplx else 'real'}})
+        st = _rng_state(rng)
+        items.append(public_case(rng, t))
+        items[-1]['regen'] = {'part': 'b', 't': t, 'state': st}
+    _public_results(ctx, items)
+    items = [it for it in items if it['out'] is not None]
     outs = ctx.lean([it['line'] for it in items])
     for it, o in zip(items, outs):
         ctx.case(key=hashlib.sha1((it['line'] + f' storage={it["case"]["bsr_blocksize"]}').encode()).hexdigest(), nontrivial=it['nontrivial'],
@@ -571,252 +753,283 @@ def _well_system(rng, n, cplx, bs=1):
     return M
 
 
-def part_c(ctx, N):
-    from pyamg.relaxation import relaxation as R
-    from pyamg.util.utils import get_block_diag
-    rng = ctx.np_rng
-    for t in range(N):
-        cplx = t % 5 == 4
-        dt = complex if cplx else float
-        bs = int(rng.choice([1, 2, 3]))
-        nb = int(rng.integers(1, 5))
-        n = bs * nb
-        M = _well_system(rng, n, cplx)
-        A = gen.int32csr(sp.csr_array(M))
-        b = gen.rand_vec(rng, n, cplx).astype(dt)
-        x0 = gen.rand_vec(rng, n, cplx).astype(dt)
-        om = float(rng.choice([1.0, 0.5, 1.3]))
-        iters = int(rng.integers(1, 3))
-        sweep = str(rng.choice(['forward', 'backward', 'symmetric']))
-        method = ['bsr_gs', 'bsr_jacobi', 'block_jacobi', 'block_gauss_seidel', 'jacobi_ne', 'gauss_seidel_ne',
-                  'gauss_seidel_nr', 'polynomial', 'schwarz', 'fixed_point', 'cf_block_jacobi', 'float32', 'complex64'][t % 13]
-        case = {'method': method, 'n': n, 'bs': bs, 'complex': cplx, 'M': M.tolist() if not cplx else [[[v.real, v.imag] for v in r] for r in M],
-                'b': b.tolist(), 'x': x0.tolist(), 'omega': om, 'iterations': iters, 'sweep': sweep}
-        key = (method, sweep, bs, cplx, om != 1, iters)
-        ctx.case(key=hashlib.sha1(repr((key, M.tobytes(), b.tobytes(), x0.tobytes())).encode()).hexdigest(), nontrivial=n >= 2,
-                 sample={'method': method, 'n': n, 'bs': bs, 'sweep': sweep, 'omega': om, 'iterations': iters} if t < 3 else None)
-        ctx.feat('search:' + method)
-        D = M.astype(dt)
+SEARCH_METHODS = ['bsr_gs', 'bsr_jacobi', 'block_jacobi', 'block_gauss_seidel', 'jacobi_ne', 'gauss_seidel_ne',
+                  'gauss_seidel_nr', 'polynomial', 'schwarz', 'fixed_point', 'cf_block_jacobi', 'float32', 'complex64']
+
+
+def search_case(rng, t):
+    """one case of the search: all random choices are made here; `run` (executed in the isolated worker) makes the real
+    calls, judges them against the dense formulas and returns the list of failure messages"""
+    cplx = t % 5 == 4
+    dt = complex if cplx else float
+    bs = int(rng.choice([1, 2, 3]))
+    nb = int(rng.integers(1, 5))
+    n = bs * nb
+    M = _well_system(rng, n, cplx)
+    A = gen.int32csr(sp.csr_array(M))
+    b = gen.rand_vec(rng, n, cplx).astype(dt)
+    x0 = gen.rand_vec(rng, n, cplx).astype(dt)
+    om = float(rng.choice([1.0, 0.5, 1.3]))
+    iters = int(rng.integers(1, 3))
+    sweep = str(rng.choice(['forward', 'backward', 'symmetric']))
+    method = SEARCH_METHODS[t % 13]
+    case = {'method': method, 'n': n, 'bs': bs, 'complex': cplx, 'M': M.tolist() if not cplx else [[[v.real, v.imag] for v in r] for r in M],
+            'b': b.tolist(), 'x': x0.tolist(), 'omega': om, 'iterations': iters, 'sweep': sweep}
+    key = (method, sweep, bs, cplx, om != 1, iters)
+    info = {'key': hashlib.sha1(repr((key, M.tobytes(), b.tobytes(), x0.tobytes())).encode()).hexdigest(), 'nontrivial': n >= 2,
+            'sample': {'method': method, 'n': n, 'bs': bs, 'sweep': sweep, 'omega': om, 'iterations': iters} if t < 3 else None,
+            'method': method, 'case': case}
+    D = M.astype(dt)
+    fwd, bwd = list(range(n)), list(range(n - 1, -1, -1))
+    # method-specific random choices (before any real call)
+    if method == 'cf_block_jacobi':
+        perm = rng.permutation(nb)
+        k0 = int(rng.integers(0, nb + 1))
+        C, F = np.sort(perm[:k0]).astype(np.int32), np.sort(perm[k0:]).astype(np.int32)
+        case['Cpts'], case['Fpts'] = C.tolist(), F.tolist()
+    elif method == 'polynomial':
+        coeffs = rng.choice([-0.25, 0.5, 0.125, 1.0, -0.5], size=int(rng.integers(1, 4))).tolist()
+        case['coefficients'] = coeffs
+        if t % 24 == 7:
+            x0 = np.zeros(n, dtype=dt)
+            case['x'] = x0.tolist()
+    elif method == 'schwarz':
+        # symmetric pattern required for the default subdomains (one per row: the row's pattern)
+        Ms = M + M.conj().T
+        Ms[np.arange(n), np.arange(n)] = np.abs(Ms).sum(1) + 1
+        if cplx:
+            Ms[np.arange(n), np.arange(n)] *= np.array([_CUNITS[int(k)] for k in rng.integers(0, len(_CUNITS), size=n)])
+        As = gen.int32csr(sp.csr_array(Ms))
+        case['M'] = Ms.tolist() if not cplx else [[[v.real, v.imag] for v in r] for r in Ms]
+    elif method == 'fixed_point':
+        xs = gen.rand_vec(rng, n, cplx).astype(dt)
+        bb = D @ xs
+        case['x'], case['b'] = xs.tolist(), bb.tolist()
+    elif method == 'complex64':
+        # single-precision complex data (diagonals purely imaginary / real / mixed), CSR and BSR storage
+        Mc = _well_system(rng, n, True)
+        case['M'], case['complex'] = [[[v.real, v.imag] for v in r] for r in Mc], True
+        A64 = gen.int32csr(sp.csr_array(Mc.astype(np.complex64)))
+        xc0 = (x0 + (0 if cplx else 1j) * gen.rand_vec(rng, n, False)).astype(np.complex64)
+        bc = (b + (0 if cplx else 1j) * gen.rand_vec(rng, n, False)).astype(np.complex64)
+        case['x'], case['b'] = xc0.astype(complex).tolist(), bc.astype(complex).tolist()
+
+    def run(prog):
+        from pyamg.relaxation import relaxation as R
+        fails = []
         x = x0.copy()
         hA, hb = _h(A.data), _h(b)
-        fwd, bwd = list(range(n)), list(range(n - 1, -1, -1))
 
         def fail(msg, ref=None):
-            ctx.violation(f'{method}: {msg}' + (f' expected {np.asarray(ref).tolist()} got {x.tolist()}' if ref is not None else ''),
-                          {'kind': 'search', **case})
+            fails.append(f'{method}: {msg}' + (f' expected {np.asarray(ref).tolist()} got {x.tolist()}' if ref is not None else ''))
 
         try:
-            if method == 'bsr_gs':
-                Ab = A.tobsr(blocksize=(bs, bs))
-                R.gauss_seidel(Ab, x, b, iterations=iters, sweep=sweep, omega=om)
-                ref = x0.copy()
-                for _ in range(iters):
-                    if sweep in ('forward', 'symmetric'):
-                        ref = _dense_gs(D, ref, b, fwd, om)
-                    if sweep in ('backward', 'symmetric'):
-                        ref = _dense_gs(D, ref, b, bwd, om)
-                xc = x0.copy()
-                R.gauss_seidel(A, xc, b, iterations=iters, sweep=sweep, omega=om)
-                if not np.allclose(x, ref, rtol=1e-9, atol=1e-9):
-                    fail('BSR Gauss-Seidel differs from the point-wise splitting update', ref)
-                elif not np.allclose(x, xc, rtol=1e-9, atol=1e-9):
-                    fail('CSR and BSR storage give different results', xc)
-            elif method == 'bsr_jacobi':
-                Ab = A.tobsr(blocksize=(bs, bs))
-                R.jacobi(Ab, x, b, iterations=iters, omega=om)
-                ref = x0.copy()
-                for _ in range(iters):
-                    ref = _dense_jac(D, ref, b, fwd, om)
-                if not np.allclose(x, ref, rtol=1e-9, atol=1e-9):
-                    fail('BSR Jacobi differs from x + omega D^-1 (b - A x)', ref)
-            elif method in ('block_jacobi', 'cf_block_jacobi'):
-                Dinv = np.array([np.linalg.inv(D[k * bs:(k + 1) * bs, k * bs:(k + 1) * bs]) for k in range(nb)])
-                if method == 'block_jacobi':
-                    R.block_jacobi(A, x, b, blocksize=bs, iterations=iters, omega=om)
+                if method == 'bsr_gs':
+                    Ab = A.tobsr(blocksize=(bs, bs))
+                    R.gauss_seidel(Ab, x, b, iterations=iters, sweep=sweep, omega=om)
+                    ref = x0.copy()
+                    for _ in range(iters):
+                        if sweep in ('forward', 'symmetric'):
+                            ref = _dense_gs(D, ref, b, fwd, om)
+                        if sweep in ('backward', 'symmetric'):
+                            ref = _dense_gs(D, ref, b, bwd, om)
+                    xc = x0.copy()
+                    R.gauss_seidel(A, xc, b, iterations=iters, sweep=sweep, omega=om)
+                    if not np.allclose(x, ref, rtol=1e-9, atol=1e-9):
+                        fail('BSR Gauss-Seidel differs from the point-wise splitting update', ref)
+                    elif not np.allclose(x, xc, rtol=1e-9, atol=1e-9):
+                        fail('CSR and BSR storage give different results', xc)
+                elif method == 'bsr_jacobi':
+                    Ab = A.tobsr(blocksize=(bs, bs))
+                    R.jacobi(Ab, x, b, iterations=iters, omega=om)
+                    ref = x0.copy()
+                    for _ in range(iters):
+                        ref = _dense_jac(D, ref, b, fwd, om)
+                    if not np.allclose(x, ref, rtol=1e-9, atol=1e-9):
+                        fail('BSR Jacobi differs from x + omega D^-1 (b - A x)', ref)
+                elif method in ('block_jacobi', 'cf_block_jacobi'):
+                    Dinv = np.array([np.linalg.inv(D[k * bs:(k + 1) * bs, k * bs:(k + 1) * bs]) for k in range(nb)])
+                    if method == 'block_jacobi':
+                        R.block_jacobi(A, x, b, blocksize=bs, iterations=iters, omega=om)
+                        ref = x0.copy()
+                        for _ in range(iters):
+                            r = b - D @ ref
+                            ref = ref + om * np.concatenate([Dinv[k] @ r[k * bs:(k + 1) * bs] for k in range(nb)])
+                    else:
+                        R.cf_block_jacobi(A, x, b, C, F, blocksize=bs, iterations=iters, omega=om)
+                        ref = x0.copy()
+                        for _ in range(iters):
+                            for pts in (C, F):
+                                r = b - D @ ref
+                                new = ref.copy()
+                                for k in pts:
+                                    new[k * bs:(k + 1) * bs] = ref[k * bs:(k + 1) * bs] + om * (Dinv[k] @ r[k * bs:(k + 1) * bs])
+                                ref = new
+                    if not np.allclose(x, ref, rtol=1e-8, atol=1e-8):
+                        fail('block Jacobi differs from x + omega D_block^-1 (b - A x)', ref)
+                elif method == 'block_gauss_seidel':
+                    R.block_gauss_seidel(A, x, b, iterations=iters, sweep=sweep, blocksize=bs)
+                    ref = x0.copy()
+
+                    def bgs(ref, order):
+                        for k in order:
+                            sl = slice(k * bs, (k + 1) * bs)
+                            r = b[sl] - D[sl] @ ref + D[sl, sl] @ ref[sl]
+                            ref[sl] = np.linalg.solve(D[sl, sl], r)
+                        return ref
+                    for _ in range(iters):
+                        if sweep in ('forward', 'symmetric'):
+                            ref = bgs(ref, range(nb))
+                        if sweep in ('backward', 'symmetric'):
+                            ref = bgs(ref, range(nb - 1, -1, -1))
+                    if not np.allclose(x, ref, rtol=1e-8, atol=1e-8):
+                        fail('block Gauss-Seidel differs from its block splitting update', ref)
+                elif method == 'jacobi_ne':
+                    R.jacobi_ne(A, x, b, iterations=iters, omega=om)
+                    ref = x0.copy()
+                    dd = np.sum(np.abs(D) ** 2, axis=1)
+                    for _ in range(iters):
+                        ref = ref + om * (D.conj().T @ ((b - D @ ref) / dd))
+                    if not np.allclose(x, ref, rtol=1e-9, atol=1e-9):
+                        fail('jacobi_ne differs from x + omega A^H diag(A A^H)^-1 (b - A x)', ref)
+                elif method == 'gauss_seidel_ne':
+                    R.gauss_seidel_ne(A, x, b, iterations=iters, sweep=sweep, omega=om)
+                    ref = x0.copy()
+                    dd = np.sum(np.abs(D) ** 2, axis=1)
+
+                    def kz(ref, order):
+                        for i in order:
+                            ref = ref + om * ((b[i] - D[i] @ ref) / dd[i]) * D[i].conj()
+                        return ref
+                    for _ in range(iters):
+                        if sweep in ('forward', 'symmetric'):
+                            ref = kz(ref, fwd)
+                        if sweep in ('backward', 'symmetric'):
+                            ref = kz(ref, bwd)
+                    if not np.allclose(x, ref, rtol=1e-9, atol=1e-9):
+                        fail('gauss_seidel_ne differs from the Kaczmarz row projections', ref)
+                elif method == 'gauss_seidel_nr':
+                    R.gauss_seidel_nr(A, x, b, iterations=iters, sweep=sweep, omega=om)
+                    ref = x0.copy()
+                    dd = np.sum(np.abs(D) ** 2, axis=0)
+
+                    def nr(ref, order):
+                        for i in order:
+                            ref = ref.copy()
+                            ref[i] += om * (D[:, i].conj() @ (b - D @ ref)) / dd[i]
+                        return ref
+                    for _ in range(iters):
+                        if sweep in ('forward', 'symmetric'):
+                            ref = nr(ref, fwd)
+                        if sweep in ('backward', 'symmetric'):
+                            ref = nr(ref, bwd)
+                    if not np.allclose(x, ref, rtol=1e-9, atol=1e-9):
+                        fail('gauss_seidel_nr differs from the column projections on the normal equations', ref)
+                elif method == 'polynomial':
+                    R.polynomial(A, x, b, coeffs, iterations=iters)
                     ref = x0.copy()
                     for _ in range(iters):
                         r = b - D @ ref
-                        ref = ref + om * np.concatenate([Dinv[k] @ r[k * bs:(k + 1) * bs] for k in range(nb)])
-                else:
-                    perm = rng.permutation(nb)
-                    k0 = int(rng.integers(0, nb + 1))
-                    C, F = np.sort(perm[:k0]).astype(np.int32), np.sort(perm[k0:]).astype(np.int32)
-                    case['Cpts'], case['Fpts'] = C.tolist(), F.tolist()
-                    R.cf_block_jacobi(A, x, b, C, F, blocksize=bs, iterations=iters, omega=om)
+                        h = np.zeros(n, dtype=dt)
+                        for c in coeffs:           # Horner: p(A) r, coefficients in descending order
+                            h = D @ h + c * r
+                        ref = ref + h
+                    if not np.allclose(x, ref, rtol=1e-9, atol=1e-9):
+                        fail('polynomial differs from x + p(A)(b - A x)', ref)
+                elif method == 'schwarz':
+                    Ds = Ms.astype(dt)
+                    R.schwarz(As, x, b, iterations=iters, sweep=sweep)
                     ref = x0.copy()
+                    subs = [np.sort(As.indices[As.indptr[i]:As.indptr[i + 1]]) for i in range(n)]
+
+                    def sch(ref, order):
+                        for s in order:
+                            idx = subs[s]
+                            r = b - Ds @ ref
+                            ref = ref.copy()
+                            ref[idx] += np.linalg.solve(Ds[np.ix_(idx, idx)], r[idx])
+                        return ref
                     for _ in range(iters):
-                        for pts in (C, F):
-                            r = b - D @ ref
-                            new = ref.copy()
-                            for k in pts:
-                                new[k * bs:(k + 1) * bs] = ref[k * bs:(k + 1) * bs] + om * (Dinv[k] @ r[k * bs:(k + 1) * bs])
-                            ref = new
-                if not np.allclose(x, ref, rtol=1e-8, atol=1e-8):
-                    fail('block Jacobi differs from x + omega D_block^-1 (b - A x)', ref)
-            elif method == 'block_gauss_seidel':
-                R.block_gauss_seidel(A, x, b, iterations=iters, sweep=sweep, blocksize=bs)
-                ref = x0.copy()
-
-                def bgs(ref, order):
-                    for k in order:
-                        sl = slice(k * bs, (k + 1) * bs)
-                        r = b[sl] - D[sl] @ ref + D[sl, sl] @ ref[sl]
-                        ref[sl] = np.linalg.solve(D[sl, sl], r)
-                    return ref
-                for _ in range(iters):
-                    if sweep in ('forward', 'symmetric'):
-                        ref = bgs(ref, range(nb))
-                    if sweep in ('backward', 'symmetric'):
-                        ref = bgs(ref, range(nb - 1, -1, -1))
-                if not np.allclose(x, ref, rtol=1e-8, atol=1e-8):
-                    fail('block Gauss-Seidel differs from its block splitting update', ref)
-            elif method == 'jacobi_ne':
-                R.jacobi_ne(A, x, b, iterations=iters, omega=om)
-                ref = x0.copy()
-                dd = np.sum(np.abs(D) ** 2, axis=1)
-                for _ in range(iters):
-                    ref = ref + om * (D.conj().T @ ((b - D @ ref) / dd))
-                if not np.allclose(x, ref, rtol=1e-9, atol=1e-9):
-                    fail('jacobi_ne differs from x + omega A^H diag(A A^H)^-1 (b - A x)', ref)
-            elif method == 'gauss_seidel_ne':
-                R.gauss_seidel_ne(A, x, b, iterations=iters, sweep=sweep, omega=om)
-                ref = x0.copy()
-                dd = np.sum(np.abs(D) ** 2, axis=1)
-
-                def kz(ref, order):
-                    for i in order:
-                        ref = ref + om * ((b[i] - D[i] @ ref) / dd[i]) * D[i].conj()
-                    return ref
-                for _ in range(iters):
-                    if sweep in ('forward', 'symmetric'):
-                        ref = kz(ref, fwd)
-                    if sweep in ('backward', 'symmetric'):
-                        ref = kz(ref, bwd)
-                if not np.allclose(x, ref, rtol=1e-9, atol=1e-9):
-                    fail('gauss_seidel_ne differs from the Kaczmarz row projections', ref)
-            elif method == 'gauss_seidel_nr':
-                R.gauss_seidel_nr(A, x, b, iterations=iters, sweep=sweep, omega=om)
-                ref = x0.copy()
-                dd = np.sum(np.abs(D) ** 2, axis=0)
-
-                def nr(ref, order):
-                    for i in order:
-                        ref = ref.copy()
-                        ref[i] += om * (D[:, i].conj() @ (b - D @ ref)) / dd[i]
-                    return ref
-                for _ in range(iters):
-                    if sweep in ('forward', 'symmetric'):
-                        ref = nr(ref, fwd)
-                    if sweep in ('backward', 'symmetric'):
-                        ref = nr(ref, bwd)
-                if not np.allclose(x, ref, rtol=1e-9, atol=1e-9):
-                    fail('gauss_seidel_nr differs from the column projections on the normal equations', ref)
-            elif method == 'polynomial':
-                coeffs = rng.choice([-0.25, 0.5, 0.125, 1.0, -0.5], size=int(rng.integers(1, 4))).tolist()
-                case['coefficients'] = coeffs
-                if t % 24 == 7:
-                    x = np.zeros(n, dtype=dt)
-                    x0 = x.copy()
-                    case['x'] = x0.tolist()
-                R.polynomial(A, x, b, coeffs, iterations=iters)
-                ref = x0.copy()
-                for _ in range(iters):
-                    r = b - D @ ref
-                    h = np.zeros(n, dtype=dt)
-                    for c in coeffs:           # Horner: p(A) r, coefficients in descending order
-                        h = D @ h + c * r
-                    ref = ref + h
-                if not np.allclose(x, ref, rtol=1e-9, atol=1e-9):
-                    fail('polynomial differs from x + p(A)(b - A x)', ref)
-            elif method == 'schwarz':
-                # symmetric pattern required for the default subdomains (one per row: the row's pattern)
-                Ms = M + M.conj().T
-                Ms[np.arange(n), np.arange(n)] = np.abs(Ms).sum(1) + 1
-                if cplx:
-                    Ms[np.arange(n), np.arange(n)] *= np.array([_CUNITS[int(k)] for k in rng.integers(0, len(_CUNITS), size=n)])
-                As = gen.int32csr(sp.csr_array(Ms))
-                case['M'] = Ms.tolist() if not cplx else [[[v.real, v.imag] for v in r] for r in Ms]
-                Ds = Ms.astype(dt)
-                R.schwarz(As, x, b, iterations=iters, sweep=sweep)
-                ref = x0.copy()
-                subs = [np.sort(As.indices[As.indptr[i]:As.indptr[i + 1]]) for i in range(n)]
-
-                def sch(ref, order):
-                    for s in order:
-                        idx = subs[s]
-                        r = b - Ds @ ref
-                        ref = ref.copy()
-                        ref[idx] += np.linalg.solve(Ds[np.ix_(idx, idx)], r[idx])
-                    return ref
-                for _ in range(iters):
-                    if sweep in ('forward', 'symmetric'):
-                        ref = sch(ref, range(n))
-                    if sweep in ('backward', 'symmetric'):
-                        ref = sch(ref, range(n - 1, -1, -1))
-                if not np.allclose(x, ref, rtol=1e-7, atol=1e-7):
-                    fail('schwarz differs from successive exact subdomain solves', ref)
-            elif method == 'fixed_point':
-                xs = gen.rand_vec(rng, n, cplx).astype(dt)
-                bb = D @ xs
-                case['x'], case['b'] = xs.tolist(), bb.tolist()
-                for nm, call in [('gauss_seidel', lambda v: R.gauss_seidel(A, v, bb, iterations=iters, sweep=sweep, omega=om)),
-                                 ('jacobi', lambda v: R.jacobi(A, v, bb, iterations=iters, omega=om)),
-                                 ('block_jacobi', lambda v: R.block_jacobi(A, v, bb, blocksize=bs, iterations=iters, omega=om)),
-                                 ('block_gauss_seidel', lambda v: R.block_gauss_seidel(A, v, bb, iterations=iters, sweep=sweep, blocksize=bs)),
-                                 ('jacobi_ne', lambda v: R.jacobi_ne(A, v, bb, iterations=iters, omega=om)),
-                                 ('gauss_seidel_ne', lambda v: R.gauss_seidel_ne(A, v, bb, iterations=iters, sweep=sweep, omega=om)),
-                                 ('gauss_seidel_nr', lambda v: R.gauss_seidel_nr(A, v, bb, iterations=iters, sweep=sweep, omega=om))]:
-                    v = xs.copy()
-                    call(v)
-                    if not np.allclose(v, xs, rtol=1e-9, atol=1e-9):
-                        x = v
-                        fail(f'the exact solution is not a fixed point of {nm}', xs)
-            elif method == 'float32':
-                Mr = M.real.copy()
-                Mr[np.arange(n), np.arange(n)] = np.round(np.abs(M.diagonal()))     # keep the real system diagonally dominant
-                A32 = gen.int32csr(sp.csr_array(Mr.astype(np.float32)))
-                D32 = Mr.astype(np.float64)
-                x = x0.real.astype(np.float32)
-                b32 = b.real.astype(np.float32)
-                R.gauss_seidel(A32, x, b32, iterations=iters, sweep=sweep, omega=om)
-                ref = x0.real.astype(np.float64)
-                for _ in range(iters):
-                    if sweep in ('forward', 'symmetric'):
-                        ref = _dense_gs(D32, ref, b.real, fwd, om)
-                    if sweep in ('backward', 'symmetric'):
-                        ref = _dense_gs(D32, ref, b.real, bwd, om)
-                if x.dtype != np.float32 or not np.allclose(x, ref, rtol=2e-4, atol=2e-4):
-                    fail('single-precision Gauss-Seidel differs from the splitting update', ref)
-            elif method == 'complex64':
-                # single-precision complex data (diagonals purely imaginary / real / mixed), CSR and BSR storage
-                Mc = _well_system(rng, n, True)
-                case['M'], case['complex'] = [[[v.real, v.imag] for v in r] for r in Mc], True
-                A64 = gen.int32csr(sp.csr_array(Mc.astype(np.complex64)))
-                xc0 = (x0 + (0 if cplx else 1j) * gen.rand_vec(rng, n, False)).astype(np.complex64)
-                bc = (b + (0 if cplx else 1j) * gen.rand_vec(rng, n, False)).astype(np.complex64)
-                case['x'], case['b'] = xc0.astype(complex).tolist(), bc.astype(complex).tolist()
-                Dc, bcd = Mc.astype(complex), bc.astype(complex)
-                for nm, stor in [('jacobi', 'csr'), ('gauss_seidel', 'csr'), ('jacobi', 'bsr'), ('gauss_seidel', 'bsr')]:
-                    Ain = A64 if stor == 'csr' else A64.tobsr(blocksize=(bs, bs))
-                    x = xc0.copy()
-                    ref = xc0.astype(complex)
-                    if nm == 'jacobi':
-                        R.jacobi(Ain, x, bc, iterations=iters, omega=om)
-                        for _ in range(iters):
-                            ref = _dense_jac(Dc, ref, bcd, fwd, om)
-                    else:
-                        R.gauss_seidel(Ain, x, bc, iterations=iters, sweep=sweep, omega=om)
-                        for _ in range(iters):
-                            if sweep in ('forward', 'symmetric'):
-                                ref = _dense_gs(Dc, ref, bcd, fwd, om)
-                            if sweep in ('backward', 'symmetric'):
-                                ref = _dense_gs(Dc, ref, bcd, bwd, om)
-                    if x.dtype != np.complex64 or not np.allclose(x, ref, rtol=2e-4, atol=2e-4):
-                        fail(f'single-precision complex {nm} ({stor} storage) differs from the splitting update', ref)
+                        if sweep in ('forward', 'symmetric'):
+                            ref = sch(ref, range(n))
+                        if sweep in ('backward', 'symmetric'):
+                            ref = sch(ref, range(n - 1, -1, -1))
+                    if not np.allclose(x, ref, rtol=1e-7, atol=1e-7):
+                        fail('schwarz differs from successive exact subdomain solves', ref)
+                elif method == 'fixed_point':
+                    for nm, call in [('gauss_seidel', lambda v: R.gauss_seidel(A, v, bb, iterations=iters, sweep=sweep, omega=om)),
+                                     ('jacobi', lambda v: R.jacobi(A, v, bb, iterations=iters, omega=om)),
+                                     ('block_jacobi', lambda v: R.block_jacobi(A, v, bb, blocksize=bs, iterations=iters, omega=om)),
+                                     ('block_gauss_seidel', lambda v: R.block_gauss_seidel(A, v, bb, iterations=iters, sweep=sweep, blocksize=bs)),
+                                     ('jacobi_ne', lambda v: R.jacobi_ne(A, v, bb, iterations=iters, omega=om)),
+                                     ('gauss_seidel_ne', lambda v: R.gauss_seidel_ne(A, v, bb, iterations=iters, sweep=sweep, omega=om)),
+                                     ('gauss_seidel_nr', lambda v: R.gauss_seidel_nr(A, v, bb, iterations=iters, sweep=sweep, omega=om))]:
+                        v = xs.copy()
+                        call(v)
+                        if not np.allclose(v, xs, rtol=1e-9, atol=1e-9):
+                            x = v
+                            fail(f'the exact solution is not a fixed point of {nm}', xs)
+                elif method == 'float32':
+                    Mr = M.real.copy()
+                    Mr[np.arange(n), np.arange(n)] = np.round(np.abs(M.diagonal()))     # keep the real system diagonally dominant
+                    A32 = gen.int32csr(sp.csr_array(Mr.astype(np.float32)))
+                    D32 = Mr.astype(np.float64)
+                    x = x0.real.astype(np.float32)
+                    b32 = b.real.astype(np.float32)
+                    R.gauss_seidel(A32, x, b32, iterations=iters, sweep=sweep, omega=om)
+                    ref = x0.real.astype(np.float64)
+                    for _ in range(iters):
+                        if sweep in ('forward', 'symmetric'):
+                            ref = _dense_gs(D32, ref, b.real, fwd, om)
+                        if sweep in ('backward', 'symmetric'):
+                            ref = _dense_gs(D32, ref, b.real, bwd, om)
+                    if x.dtype != np.float32 or not np.allclose(x, ref, rtol=2e-4, atol=2e-4):
+                        fail('single-precision Gauss-Seidel differs from the splitting update', ref)
+                elif method == 'complex64':
+                    Dc, bcd = Mc.astype(complex), bc.astype(complex)
+                    for nm, stor in [('jacobi', 'csr'), ('gauss_seidel', 'csr'), ('jacobi', 'bsr'), ('gauss_seidel', 'bsr')]:
+                        Ain = A64 if stor == 'csr' else A64.tobsr(blocksize=(bs, bs))
+                        x = xc0.copy()
+                        ref = xc0.astype(complex)
+                        if nm == 'jacobi':
+                            R.jacobi(Ain, x, bc, iterations=iters, omega=om)
+                            for _ in range(iters):
+                                ref = _dense_jac(Dc, ref, bcd, fwd, om)
+                        else:
+                            R.gauss_seidel(Ain, x, bc, iterations=iters, sweep=sweep, omega=om)
+                            for _ in range(iters):
+                                if sweep in ('forward', 'symmetric'):
+                                    ref = _dense_gs(Dc, ref, bcd, fwd, om)
+                                if sweep in ('backward', 'symmetric'):
+                                    ref = _dense_gs(Dc, ref, bcd, bwd, om)
+                        if x.dtype != np.complex64 or not np.allclose(x, ref, rtol=2e-4, atol=2e-4):
+                            fail(f'single-precision complex {nm} ({stor} storage) differs from the splitting update', ref)
         except Exception as e:   # a public relaxation call must not raise on a valid system
             fail(f'raised {type(e).__name__}: {e}')
         if _h(A.data) != hA or _h(b) != hb:
             fail('the matrix or the right-hand side was modified')
+        return fails
+    info['run'] = run
+    return info
+
+
+def part_c(ctx, N):
+    rng = ctx.np_rng
+    items = []
+    for t in range(N):
+        st = _rng_state(rng)
+        items.append(search_case(rng, t))
+        items[-1]['regen'] = {'part': 'c', 't': t, 'state': st}
+    for it, r in zip(items, _isolated([it['run'] for it in items])):
+        ctx.case(key=it['key'], nontrivial=it['nontrivial'], sample=it['sample'])
+        ctx.feat('search:' + it['method'])
+        case = {'kind': 'search', **it['case'], 'regen': it['regen']}
+        if r[0] != 'ok':
+            ctx.violation(f'{it["method"]} (sweep={it["case"]["sweep"]}, iterations={it["case"]["iterations"]}, omega={it["case"]["omega"]}) did '
+                          f'not compute its defining update: {_failed_text(r)}', case)
+            continue
+        for msg in r[1]:
+            ctx.violation(msg, case)
 
 
 # ------------------------------------------------------------------------------------------------
@@ -1210,6 +1423,22 @@ def ext_call(c):
             Ain.indptr, Ain.indices = Ain.indptr.astype(np.int32), Ain.indices.astype(np.int32)
             extra['csc'] = (Ain.indptr.tolist(), Ain.indices.tolist(), Ain.data.copy())
         R.gauss_seidel_nr(Ain, x, b, iterations=c['iterations'], sweep=c['sweep'], omega=c['omega'], **kw)
+    elif method == 'schwarz' and c.get('via', 'schwarz') != 'schwarz':
+        # the same relaxation through the smoother set-up functions of pyamg.relaxation.smoothing on a hierarchy level
+        from pyamg.relaxation import smoothing
+        from pyamg.multilevel import MultilevelSolver
+        lvl = MultilevelSolver.Level()
+        lvl.A = A
+        i32 = lambda key: np.array(c[key], dtype=np.int32)
+        if c['via'] == 'strength_based':        # one subdomain per row of the strength matrix lvl.C: its stored pattern
+            lvl.C = sp.csr_array((np.ones(len(c['subdomain'])), i32('subdomain'), i32('subdomain_ptr')), shape=(c['n'], c['n']))
+            fn = smoothing.setup_strength_based_schwarz(lvl, iterations=c['iterations'], sweep=c['sweep'])
+        else:
+            kw = {} if c['mode'] == 'subdomain_only' else {'inv_subblock': _ja(c['inv_subblock'], cplx).astype(dt),
+                                                           'inv_subblock_ptr': i32('inv_subblock_ptr')}
+            fn = smoothing.setup_schwarz(lvl, iterations=c['iterations'], subdomain=i32('subdomain'), subdomain_ptr=i32('subdomain_ptr'),
+                                         sweep=c['sweep'], **kw)
+        fn(A, x, b)
     elif method == 'schwarz':
         if c['mode'] == 'default':
             R.schwarz(A, x, b, iterations=c['iterations'], sweep=c['sweep'])
@@ -1488,12 +1717,19 @@ def ext_reference(c):
     return x
 
 
+def _ext_brief(c):
+    d = {k: c[k] for k in ("mode", "fmt", "via", "sweep", "iterations", "omega", "bs", "range") if k in c}
+    if 'subdomain_ptr' in c:
+        d['subdomains'] = f'{len(c["subdomain_ptr"]) - 1} (n={c["n"]})'
+    return d
+
+
 def judge_ext(ctx, c, out):
     ref = ext_reference(c)
     if ref is None:
         return
     if isinstance(out, tuple) or not np.allclose(ref, out, rtol=0, atol=1e-8 * (1 + float(np.max(np.abs(ref), initial=0)))):
-        ctx.violation(f'{c["method"]} ({ {k: c[k] for k in ("mode", "fmt", "sweep", "iterations", "omega", "bs") if k in c} }) is not its '
+        ctx.violation(f'{c["method"]} ({_ext_brief(c)}) is not its '
                       f'defining update: expected {np.asarray(ref).tolist()} got {out if isinstance(out, tuple) else np.asarray(out).tolist()}', c)
 
 
@@ -1534,18 +1770,19 @@ def _eq_normwise(model_vals, impl):
     return exact, bool(np.max(np.abs(mv - impl)) <= 1e-9 * scale)
 
 
-def part_d(ctx, N, casefn=None, tag='ext'):
+def part_d(ctx, N, casefn=None, tag='ext', always_judge=False):
     rng = ctx.np_rng
     casefn = casefn or ext_case
     items = []
-    for t in range(N):
-        c = casefn(rng, t)
-        try:
-            out, extra = ext_call(c)
-        except Exception as e:      # a public relaxation call must not raise on a valid system
+    cases = [casefn(rng, t) for t in range(N)]
+    # the real calls: in the isolated worker (ext_call makes no random choice)
+    for c, r in zip(cases, _isolated([lambda prog, c=c: ext_call(c) for c in cases])):
+        if r[0] != 'ok':            # a public relaxation call must not raise (or crash, or hang) on a valid system
             ctx.case(key=hashlib.sha1(repr(c).encode()).hexdigest(), nontrivial=c['n'] >= 2)
-            ctx.violation(f'{c["method"]} raised {type(e).__name__}: {e}', c)
+            ctx.feat(tag + ':' + c['method'])
+            ctx.violation(f'{c["method"]} ({_ext_brief(c)}) did not compute its defining update: {_failed_text(r)}', c)
             continue
+        out, extra = r[1]
         if extra.get('modified'):
             ctx.violation(f'{c["method"]} modified its matrix or right-hand side', c)
         line = ext_line(c, extra)
@@ -1558,7 +1795,7 @@ def part_d(ctx, N, casefn=None, tag='ext'):
         ctx.case(key=hashlib.sha1(line.encode()).hexdigest(), nontrivial=nontriv,
                  sample={'request': line[:300], 'model': o[:120], 'impl': np.asarray(out).tolist()[:8] if not np.iscomplexobj(out) else str(out[:4])})
         ctx.feat(tag + ':' + c['method'])
-        for k in ('mode', 'fmt', 'sweep', 'bs', 'lists'):
+        for k in ('mode', 'fmt', 'sweep', 'bs', 'lists', 'via', 'count', 'iterations' if always_judge else 'lists'):
             if k in c:
                 ctx.feat(f'{tag}:{c["method"]}:{k}={c[k]}')
         ctx.feat(tag + ':complex' if c['complex'] else tag + ':real')
@@ -1572,12 +1809,72 @@ def part_d(ctx, N, casefn=None, tag='ext'):
             ctx.feat(tag + ':bit_exact:' + c['method'])
         if not close:
             ctx.corr(tag + ' ' + c['method'], c, o, np.asarray(out).tolist() if not np.iscomplexobj(out) else _jl(out))
+        if not close or always_judge:
             judge_ext(ctx, c, out)
 
 
 def part_f(ctx, N):
     """extension E33: indexed block Jacobi, CF / FC block Jacobi, public block routines on CSR input (conversion inside the model)"""
     part_d(ctx, N, casefn=e33_case, tag='e33')
+
+
+# ------------------------------------------------------------------------------------------------
+# part G: multiplicative Schwarz over USER decompositions whose number of subdomains m is smaller than, equal to and larger
+# than the number of unknowns n (the sweep runs over the subdomains, not over the rows), with empty subdomains, x all three
+# sweeps x iterations 1-3 x computed / given inverse / given arbitrary blocks x real / complex; through relaxation.schwarz,
+# through the smoother set-up functions (setup_schwarz with the user's decomposition; setup_strength_based_schwarz with the
+# decomposition as the pattern of lvl.C, m = n) and the raw kernel on forward / backward / strided ranges of the m subdomains.
+# Every case is judged by the dense formula in the documented order (forward: subdomains 0..m-1, backward: m-1..0,
+# symmetric: both) and compared with the Lean model.
+# ------------------------------------------------------------------------------------------------
+
+def schwarz_case(rng, t):
+    count = ['smaller', 'equal', 'larger'][t % 3]
+    sweep = ['forward', 'backward', 'symmetric'][(t // 3) % 3]
+    iters = (t // 9) % 3 + 1
+    u = t // 27
+    cplx = u % 5 == 4
+    via = ['schwarz', 'schwarz', 'setup_schwarz', 'kernel', 'schwarz', 'strength_based'][u % 6]
+    dt = complex if cplx else float
+    n = int(rng.integers(2 if count == 'smaller' else 1, 8))
+    if via == 'strength_based':
+        count = 'equal'
+    m = n if count == 'equal' else int(rng.integers(0 if rng.random() < 0.1 else 1, n) if count == 'smaller' else rng.integers(n + 1, 2 * n + 3))
+    mode = 'subdomain_only' if via == 'strength_based' else \
+        str(rng.choice(['arbitrary', 'inverse'] if via == 'kernel' else ['subdomain_only', 'subdomain_only', 'inverse', 'arbitrary']))
+    M = _well_system(rng, n, cplx)
+    A = gen.int32csr(sp.csr_array(M))
+    A.sort_indices()
+    D = M.astype(dt)
+    p_empty = float(rng.choice([0, 0, 0.25, 0.5]))
+    sizes = [0 if rng.random() < p_empty else (n if rng.random() < 0.1 else int(rng.integers(1, min(n, 3) + 1))) for _ in range(m)]
+    sj_, sp_ = _rand_decomposition(rng, n, sizes)
+    tx_, tp_ = [], [0]
+    for d in range(m):
+        idx = sj_[sp_[d]:sp_[d + 1]]
+        k = len(idx)
+        T = (np.linalg.inv(D[np.ix_(idx, idx)]) if k else np.zeros((0, 0))) if mode != 'arbitrary' else \
+            (rng.integers(-2, 3, size=(k, k)) * 0.125).astype(dt)
+        tx_ += list(np.asarray(T, dtype=dt).ravel())
+        tp_.append(len(tx_))
+    c = {'kind': 'ext', 'method': 'k_schwarz' if via == 'kernel' else 'schwarz', 'complex': cplx, 'n': n, 'mode': mode, 'via': via, 'count': count,
+         'indptr': A.indptr.tolist(), 'indices': A.indices.tolist(), 'data': _jl(A.data), 'iterations': iters, 'sweep': sweep,
+         'subdomain': sj_, 'subdomain_ptr': sp_, 'inv_subblock': _jl(np.array(tx_, dtype=dt)), 'inv_subblock_ptr': tp_}
+    if via == 'kernel':
+        # the kernel's range over the m subdomains: the public sweeps' ranges and strided / partial ones
+        if m and rng.random() < 0.5:
+            (s0, s1, s2), _swk = gen.admissible_sweep(rng, m)
+        else:
+            s0, s1, s2 = (0, m, 1) if sweep != 'backward' else (m - 1, -1, -1)
+        c['range'] = [int(s0), int(s1), int(s2)]
+        del c['via']
+    c['b'] = _jl(gen.rand_vec(rng, n, cplx).astype(dt))
+    c['x'] = _jl(gen.rand_vec(rng, n, cplx).astype(dt))
+    return c
+
+
+def part_g(ctx, N):
+    part_d(ctx, N, casefn=schwarz_case, tag='sch', always_judge=True)
 
 
 # ------------------------------------------------------------------------------------------------
@@ -1785,25 +2082,62 @@ def judge_hist(ctx, h, k, out):
                       {'kind': 'history', 'object': h['object'], 'calls': h['calls'][:k + 1]})
 
 
+def hist_run(h, prog):
+    """all calls of a history on ONE matrix object (executed in the isolated worker): per call ('ok', x, modified?) or
+    ('raised', text), sent through prog as soon as it is known; ('begin', k) announces call k"""
+    Aobj = hist_object(h)
+    M0 = Aobj.toarray()
+    for k, c in enumerate(h['calls']):
+        prog(('begin', k))
+        try:
+            out, bmod = hist_call(c, Aobj)
+        except Exception as e:      # noqa: BLE001
+            prog(('raised', k, f'{type(e).__name__}: {e}'))
+            break
+        prog(('ok', k, out, bool(bmod or not np.array_equal(Aobj.toarray(), M0))))
+    return None
+
+
+def _hist_thunk(h):
+    def run(prog):
+        got = []
+        hist_run(h, lambda payload: (got.append(payload), prog(payload)))
+        return got
+    return run
+
+
 def part_e(ctx, N):
     rng = ctx.np_rng
     items = []
-    for t in range(N):
-        h = hist_case(rng, t)
-        Aobj = hist_object(h)
-        M0 = Aobj.toarray()
-        for k, c in enumerate(h['calls']):
+    hists = [hist_case(rng, t) for t in range(N)]
+    # the real calls: in the isolated worker (hist_object / hist_call make no random choice); what the worker reported
+    # before a crash is kept, the call it died in is the violation
+    for h, r in zip(hists, _isolated([_hist_thunk(h) for h in hists])):
+        recs = r[1] if r[0] == 'ok' else (r[2] if r[0] == 'crashed' else [])
+        if r[0] == 'raised':        # the harness side of the worker raised: not an observation of the code under test
+            raise RuntimeError('part_e worker failed: ' + r[1])
+        for rec in recs:
+            if rec[0] == 'begin':
+                continue
+            k = rec[1]
+            c = h['calls'][k]
             sub = {'kind': 'history', 'object': h['object'], 'calls': h['calls'][:k + 1]}
-            try:
-                out, bmod = hist_call(c, Aobj)
-            except Exception as e:      # a public relaxation call must not raise on a valid system, whatever was called before
+            if rec[0] == 'raised':  # a public relaxation call must not raise on a valid system, whatever was called before
                 ctx.case(key=hashlib.sha1(repr(sub).encode()).hexdigest(), nontrivial=c['n'] >= 2)
                 ctx.violation(f'call {k + 1} of a history on one {h["object"]} matrix object, {_hist_brief(c)} after '
-                              f'{[_hist_brief(p_) for p_ in h["calls"][:k]]}, raised {type(e).__name__}: {e}', sub)
+                              f'{[_hist_brief(p_) for p_ in h["calls"][:k]]}, raised {rec[2]}', sub)
                 break
-            if bmod or not np.array_equal(Aobj.toarray(), M0):
+            out = rec[2]
+            if rec[3]:
                 ctx.violation(f'{c["method"]} (call {k + 1} of a history) modified its matrix or right-hand side', sub)
             items.append((h, k, c, out, ext_line(c, {}) if c['method'] in LINE_METHODS else None))
+        if r[0] == 'crashed':
+            k = recs[-1][1] if recs and recs[-1][0] == 'begin' else 0
+            c = h['calls'][k]
+            sub = {'kind': 'history', 'object': h['object'], 'calls': h['calls'][:k + 1]}
+            ctx.case(key=hashlib.sha1(repr(sub).encode()).hexdigest(), nontrivial=c['n'] >= 2)
+            ctx.violation(f'call {k + 1} of a history on one {h["object"]} matrix object, {_hist_brief(c)} after '
+                          f'{[_hist_brief(p_) for p_ in h["calls"][:k]]}, did not compute its defining update: {_failed_text(r)}', sub)
     outs = iter(ctx.lean([it[4] for it in items if it[4] is not None]))
     for h, k, c, out, line in items:
         o = next(outs) if line is not None else None
@@ -1850,6 +2184,9 @@ def run(ctx):
     part_d(ctx, ctx.scale(600, 12000))
     part_e(ctx, ctx.scale(240, 4800))
     part_f(ctx, ctx.scale(400, 8000))
+    part_g(ctx, ctx.scale(486, 9720))
+    for k, v in _ISO_STATS.items():      # isolation bookkeeping (cumulative over the rounds of this process)
+        ctx.features['iso:' + k] = v
 
 
 def search(ctx):
@@ -1858,47 +2195,105 @@ def search(ctx):
     part_d(ctx, 1500)
     part_e(ctx, 600)
     part_f(ctx, 1200)
+    part_g(ctx, 1458)
+
+
+def _regen_item(reg):
+    """the item of parts A / B / C again, from the generator state recorded before it was generated"""
+    g = _rng_from(reg['state'])
+    if reg['part'] == 'a':
+        it = (raw_bsr_case if reg['kind'] in BSR_KERNELS else raw_case)(g, reg['kind'], reg['cplx'], reg['t'])
+    elif reg['part'] == 'b':
+        it = public_case(g, reg['t'])
+    else:
+        it = search_case(g, reg['t'])
+    it['regen'] = reg
+    return it
 
 
 def replay(ctx, data):
+    """every real call of a replay runs in a forked worker again: a crash is reported, it does not end the replay"""
     case = data['case']
-    print('replaying', case.get('kind'), {k: case[k] for k in case if k not in ('M', 'data', 'indices', 'indptr')})
-    if case.get('kind') == 'public':
-        from pyamg.relaxation import relaxation as R
-        n = case['n']
-        cplx = case['complex']
-        dt = complex if cplx else float
-        dat = np.array([complex(v['re'], v['im']) if isinstance(v, dict) else v for v in case['data']], dtype=dt)
-        A = gen.csr_from_arrays(n, case['indptr'], case['indices'], dat)
-        tov = lambda l: np.array([complex(v['re'], v['im']) if isinstance(v, dict) else v for v in l], dtype=dt)
-        x, b = tov(case['x']), tov(case['b'])
-        case = dict(case, data=dat, x=x.tolist(), b=b.tolist())
-        fn = case['fn']
-        kw = {'iterations': case['iterations']}
-        if fn in ('gauss_seidel', 'sor', 'gauss_seidel_indexed'):
-            kw['sweep'] = case['sweep']
-        if fn == 'gauss_seidel':
-            R.gauss_seidel(A, x, b, omega=case['omega'], **kw)
-        elif fn == 'sor':
-            R.sor(A, x, b, case['omega'], **kw)
-        elif fn == 'jacobi':
-            R.jacobi(A, x, b, omega=case['omega'], **kw)
+    print('replaying', case.get('kind'), {k: case[k] for k in case if k not in ('M', 'data', 'indices', 'indptr', 'regen', 'calls')})
+    if 'regen' in case:
+        it = _regen_item(case['regen'])
+        part = case['regen']['part']
+        if part == 'a':
+            _raw_results(ctx, [it])
+            if it['out'] is not None:
+                judge_raw(ctx, it)
+                print('result', np.asarray(it['out']).tolist())
+        elif part == 'b':
+            _public_results(ctx, [it])
+            if it['out'] is not None:
+                judge_public(ctx, it['case'], it['out'])
+                print('result', np.asarray(it['out']).tolist(), 'reference', dense_reference(it['case']).tolist())
         else:
-            print('replay of', fn, 'not implemented; see the case description')
-            return
-        judge_public(ctx, case, x)
-        print('result', x.tolist(), 'reference', dense_reference(case).tolist())
+            r = _isolated([it['run']])[0]
+            cs = {'kind': 'search', **it['case'], 'regen': it['regen']}
+            if r[0] != 'ok':
+                ctx.violation(f'{it["method"]} did not compute its defining update: {_failed_text(r)}', cs)
+            else:
+                for msg in r[1]:
+                    ctx.violation(msg, cs)
+            print('result', r[0], r[1] if r[0] != 'ok' else f'{len(r[1])} failure(s)')
     elif case.get('kind') == 'history':
-        Aobj = hist_object(case)
-        for k, c in enumerate(case['calls']):
-            out, _bmod = hist_call(c, Aobj)
+        r = _isolated([_hist_thunk(case)])[0]
+        recs = r[1] if r[0] == 'ok' else (r[2] if r[0] == 'crashed' else [])
+        last = None
+        for rec in recs:
+            if rec[0] == 'begin':
+                continue
+            k = rec[1]
+            c = case['calls'][k]
             ref = ext_reference(c)
-            print('call', k + 1, _hist_brief(c), 'result', np.asarray(out).tolist(), 'reference', None if ref is None else np.asarray(ref).tolist())
-        judge_hist(ctx, case, len(case['calls']) - 1, out)
+            print('call', k + 1, _hist_brief(c), rec[0], rec[2] if rec[0] == 'raised' else np.asarray(rec[2]).tolist(),
+                  'reference', None if ref is None else np.asarray(ref).tolist())
+            last = rec
+        kl = len(case['calls']) - 1
+        if r[0] != 'ok':
+            ctx.violation(f'call {kl + 1} of the history did not compute its defining update: {_failed_text(r)}', case)
+        elif last is not None and last[1] == kl:
+            judge_hist(ctx, case, kl, ('raised', last[2]) if last[0] == 'raised' else last[2])
     elif case.get('kind') == 'ext':
-        out, extra = ext_call(case)
+        r = _iso1(lambda: ext_call(case))
         ref = ext_reference(case)
-        judge_ext(ctx, case, out)
-        print('result', np.asarray(out).tolist(), 'reference', None if ref is None else np.asarray(ref).tolist())
+        if r[0] != 'ok':
+            ctx.violation(f'{case["method"]} ({_ext_brief(case)}) did not compute its defining update: {_failed_text(r)}', case)
+            print('result', _failed_text(r), 'reference', None if ref is None else np.asarray(ref).tolist())
+        else:
+            out, extra = r[1]
+            judge_ext(ctx, case, out)
+            print('result', np.asarray(out).tolist(), 'reference', None if ref is None else np.asarray(ref).tolist())
+    elif case.get('kind') == 'public':
+        _replay_public(ctx, case)
     else:
         print('see the case description in the replay file (what/detail) to reproduce by hand')
+
+
+def _replay_public(ctx, case):
+    """(replay files written before the cases carried their generator state)"""
+    from pyamg.relaxation import relaxation as R
+    n = case['n']
+    cplx = case['complex']
+    dt = complex if cplx else float
+    dat = np.array([complex(v['re'], v['im']) if isinstance(v, dict) else v for v in case['data']], dtype=dt)
+    A = gen.csr_from_arrays(n, case['indptr'], case['indices'], dat)
+    tov = lambda l: np.array([complex(v['re'], v['im']) if isinstance(v, dict) else v for v in l], dtype=dt)
+    x, b = tov(case['x']), tov(case['b'])
+    case = dict(case, data=dat, x=x.tolist(), b=b.tolist())
+    fn = case['fn']
+    kw = {'iterations': case['iterations']}
+    if fn in ('gauss_seidel', 'sor', 'gauss_seidel_indexed'):
+        kw['sweep'] = case['sweep']
+    if fn == 'gauss_seidel':
+        R.gauss_seidel(A, x, b, omega=case['omega'], **kw)
+    elif fn == 'sor':
+        R.sor(A, x, b, case['omega'], **kw)
+    elif fn == 'jacobi':
+        R.jacobi(A, x, b, omega=case['omega'], **kw)
+    else:
+        print('replay of', fn, 'not implemented; see the case description')
+        return
+    judge_public(ctx, case, x)
+    print('result', x.tolist(), 'reference', dense_reference(case).tolist())
